@@ -40,8 +40,12 @@ META = {
             'in Lean against the transcribed expression; the tables are executed against the real code on every run); the hand '
             'transcription Model/Convert.lean (tied by correspondence only); the independent Std table (typed by hand from unit '
             'definitions and CHANGES.txt); real arithmetic for IEEE doubles. FluidParticle.density enters the theorems as a '
-            'hypothesis (positive, depends on composition only) — sampled on the real EOS, not proved. Two-phase particles '
-            '(fp_type=2) are not covered. The unit block (L/mol/deg F) was found defective by this check (factor 5/9 instead of 9/5) and repaired in /repo (543e1ec); the full chain theorem, its partial form and the witness of the negation for the old factor are all kept.',
+            'hypothesis (positive, depends on composition only), not proved: on the real code the round trips are evaluated '
+            'unconditionally (a density that is not intensive, or evaluated at another state, shows up as a round-trip violation), the '
+            'model is fed with a density computed independently of the particle object (dbm_p.density with the constants of a separate '
+            'FluidMixture). Two-phase particles (fp_type=2) are covered by the predicates at flash tolerance, not by the model. '
+            'Two defects of ambient.convert_units are recorded as known findings with their negation theorems (2-D data with one unit '
+            'string; label of an unrecognised unit split into characters). The unit block (L/mol/deg F) was found defective by this check (factor 5/9 instead of 9/5) and repaired in /repo (543e1ec); the full chain theorem, its partial form and the witness of the negation for the old factor are all kept.',
     'technique': 'Lean 4 proofs (induction over lists; decide over regenerated tables) + differential execution of the model against the real code',
 }
 
